@@ -63,6 +63,13 @@ type AssertionSpec struct {
 	NameID         string   `json:"name_id,omitempty"`
 	Statements     [][]Attr `json:"statements"`
 	SessionIndexes []string `json:"session_indexes"`
+
+	// optional parts real IdPs send; none of them is the subject, an attribute or the session lifetime
+	SNOA        []string `json:"snoa,omitempty"`          // per AuthnStatement: SessionNotOnOrAfter "" | earlier | later | past (relative to mint + lifetime)
+	AuthnAgoS   []int64  `json:"authn_ago_s,omitempty"`   // per AuthnStatement: AuthnInstant = mint - n s
+	ConfNameIDs []string `json:"conf_name_ids,omitempty"` // one SubjectConfirmation per entry with that NameID (the CONFIRMING entity); needs a Subject
+	Qualifiers  bool     `json:"qualifiers,omitempty"`    // NameQualifier / SPNameQualifier / SPProvidedID / Format on the NameIDs, Issuer with its own NameQualifier
+	Conditions  string   `json:"conditions,omitempty"`    // "" | short (NotOnOrAfter = mint+90s) | long (mint + 10 lifetimes) | past
 }
 
 // Conf holds the public configuration fields of Options, CookieSessionProvider and
@@ -88,6 +95,11 @@ type Conf struct {
 	Path           string `json:"path,omitempty"`          // CookieSessionProvider.Path
 	HTTPOnlyOff    bool   `json:"http_only_off,omitempty"` // CookieSessionProvider.HTTPOnly = false
 	SecureFlip     bool   `json:"secure_flip,omitempty"`   // CookieSessionProvider.Secure negated
+
+	// CustomCodec installs an application-defined SessionCodec whose session type does NOT
+	// implement SessionWithAttributes (the Session interface is public): tokens are the same
+	// JWTs, but an attribute gate has nothing to read and must not let the request through.
+	CustomCodec bool `json:"custom_codec,omitempty"`
 
 	// requests served by the SAME Middleware / handler value before the judged one
 	// (other-legit | garbage | tracking | nocookie), and whether another user's valid
@@ -275,9 +287,20 @@ func genAssertion(t *rapid.T) AssertionSpec {
 		}
 		a.Statements[i] = st
 	}
-	a.SessionIndexes = rapid.SliceOfN(rapid.OneOf(xgen.Text(), rapid.StringMatching(`[a-f0-9]{8}`)), 0, 2).Draw(t, "sessionindexes")
+	a.SessionIndexes = rapid.SliceOfN(rapid.OneOf(xgen.Text(), rapid.StringMatching(`[a-f0-9]{8}`)), 0, 3).Draw(t, "sessionindexes")
 	if a.SessionIndexes == nil {
 		a.SessionIndexes = []string{}
+	}
+	if rapid.Bool().Draw(t, "idp-extras") {
+		for range a.SessionIndexes {
+			a.SNOA = append(a.SNOA, rapid.SampledFrom([]string{"", "later", "later", "earlier", "past"}).Draw(t, "snoa"))
+			a.AuthnAgoS = append(a.AuthnAgoS, rapid.SampledFrom([]int64{0, 5, 3600, 86400 * 30}).Draw(t, "authnago"))
+		}
+		if a.Subject != "absent" {
+			a.ConfNameIDs = rapid.SliceOfN(rapid.SampledFrom([]string{"https://idp.example.org/metadata", "confirming-entity", "mallory", "admin@example.com", ""}), 0, 2).Draw(t, "confnameids")
+		}
+		a.Qualifiers = rapid.Bool().Draw(t, "qualifiers")
+		a.Conditions = rapid.SampledFrom([]string{"", "long", "long", "short", "past"}).Draw(t, "conditions")
 	}
 	return a
 }
@@ -308,6 +331,7 @@ func genConf(t *rapid.T, key string) Conf {
 		f.HTTPOnlyOff = rapid.Bool().Draw(t, "httponlyoff")
 		f.SecureFlip = rapid.Bool().Draw(t, "secureflip")
 	}
+	f.CustomCodec = rapid.IntRange(0, 7).Draw(t, "customcodec") == 0
 	if rapid.IntRange(0, 2).Draw(t, "conf-warm") == 0 {
 		f.Warm = rapid.SliceOfN(rapid.SampledFrom([]string{"other-legit", "other-legit", "garbage", "tracking", "nocookie"}), 1, 4).Draw(t, "warm")
 		f.After = rapid.Bool().Draw(t, "after")
@@ -475,12 +499,67 @@ func refSubject(a AssertionSpec) string {
 }
 
 func buildAssertion(a AssertionSpec) *saml.Assertion {
-	as := &saml.Assertion{ID: "id-assertion", Version: "2.0", IssueInstant: fix.Epoch}
+	return buildAssertionAt(a, fix.Epoch, time.Hour)
+}
+
+// capOffset is the earliest instant (ms after minting, 0 = none) at which the assertion
+// itself says the session or the assertion ends: an implementation may honour it by
+// ending the session EARLIER than its lifetime, never later.
+func capOffset(a AssertionSpec, lifetimeMs int64) int64 {
+	capMs := int64(0)
+	lower := func(x int64) {
+		if capMs == 0 || x < capMs {
+			capMs = x
+		}
+	}
+	for _, s := range a.SNOA {
+		switch s {
+		case "earlier":
+			lower(lifetimeMs / 2)
+		case "past":
+			lower(1)
+		}
+	}
+	switch a.Conditions {
+	case "short":
+		lower(90_000)
+	case "past":
+		lower(1)
+	}
+	return capMs
+}
+
+func buildAssertionAt(a AssertionSpec, mint time.Time, lifetime time.Duration) *saml.Assertion {
+	as := &saml.Assertion{ID: "id-assertion", Version: "2.0", IssueInstant: mint, Issuer: saml.Issuer{Value: "https://idp.example.org/metadata"}}
+	qual := func(n *saml.NameID, tag string) *saml.NameID {
+		if a.Qualifiers {
+			n.NameQualifier, n.SPNameQualifier, n.SPProvidedID, n.Format = "nq-"+tag, "spnq-"+tag, "provided-"+tag, "urn:oasis:names:tc:SAML:2.0:nameid-format:persistent"
+		}
+		return n
+	}
+	if a.Qualifiers {
+		as.Issuer.NameQualifier, as.Issuer.SPProvidedID = "issuer-qualifier", "issuer-provided"
+	}
 	switch a.Subject {
 	case "nameid":
-		as.Subject = &saml.Subject{NameID: &saml.NameID{Value: a.NameID}}
+		as.Subject = &saml.Subject{NameID: qual(&saml.NameID{Value: a.NameID}, "subject")}
 	case "nonameid":
 		as.Subject = &saml.Subject{}
+	}
+	if as.Subject != nil {
+		for i, v := range a.ConfNameIDs {
+			sc := saml.SubjectConfirmation{Method: "urn:oasis:names:tc:SAML:2.0:cm:bearer", NameID: qual(&saml.NameID{Value: v}, fmt.Sprint("conf", i)),
+				SubjectConfirmationData: &saml.SubjectConfirmationData{NotOnOrAfter: mint.Add(90 * time.Second), Recipient: "https://sp.example.com/saml/acs"}}
+			as.Subject.SubjectConfirmations = append(as.Subject.SubjectConfirmations, sc)
+		}
+	}
+	switch a.Conditions {
+	case "short":
+		as.Conditions = &saml.Conditions{NotBefore: mint.Add(-time.Minute), NotOnOrAfter: mint.Add(90 * time.Second)}
+	case "long":
+		as.Conditions = &saml.Conditions{NotBefore: mint.Add(-time.Minute), NotOnOrAfter: mint.Add(10 * lifetime)}
+	case "past":
+		as.Conditions = &saml.Conditions{NotBefore: mint.Add(-2 * time.Hour), NotOnOrAfter: mint.Add(-time.Hour)}
 	}
 	for _, st := range a.Statements {
 		var s saml.AttributeStatement
@@ -493,8 +572,26 @@ func buildAssertion(a AssertionSpec) *saml.Assertion {
 		}
 		as.AttributeStatements = append(as.AttributeStatements, s)
 	}
-	for _, si := range a.SessionIndexes {
-		as.AuthnStatements = append(as.AuthnStatements, saml.AuthnStatement{SessionIndex: si})
+	for i, si := range a.SessionIndexes {
+		st := saml.AuthnStatement{SessionIndex: si, AuthnInstant: mint}
+		if i < len(a.AuthnAgoS) {
+			st.AuthnInstant = mint.Add(-time.Duration(a.AuthnAgoS[i]) * time.Second)
+		}
+		if i < len(a.SNOA) {
+			var at time.Time
+			switch a.SNOA[i] {
+			case "earlier":
+				at = mint.Add(lifetime / 2)
+			case "later":
+				at = mint.Add(10 * lifetime)
+			case "past":
+				at = mint.Add(-time.Hour)
+			}
+			if !at.IsZero() {
+				st.SessionNotOnOrAfter = &at
+			}
+		}
+		as.AuthnStatements = append(as.AuthnStatements, st)
 	}
 	return as
 }
@@ -583,6 +680,9 @@ func deploy(rootURL string, key *fix.KeyPair, cookieName string, maxAge time.Dur
 		sess.Secure = !sess.Secure
 	}
 	sess.Codec = codec
+	if f.CustomCodec {
+		sess.Codec = plainCodec{inner: codec}
+	}
 	tracker.Codec = tcodec
 	m.Session = sess
 	m.RequestTracker = tracker
@@ -616,6 +716,32 @@ func (d deployment) mintTracking() (string, error) {
 		}
 	}
 	return "", fmt.Errorf("TrackRequest set no cookie saml_%s", idx)
+}
+
+// plainSession / plainCodec: an application's own SessionCodec.  The session value
+// deliberately has no GetAttributes method.
+type plainSession struct{ claims samlsp.JWTSessionClaims }
+
+type plainCodec struct{ inner samlsp.JWTSessionCodec }
+
+func (p plainCodec) New(a *saml.Assertion) (samlsp.Session, error) {
+	s, err := p.inner.New(a)
+	if err != nil {
+		return nil, err
+	}
+	return plainSession{claims: s.(samlsp.JWTSessionClaims)}, nil
+}
+
+func (p plainCodec) Encode(s samlsp.Session) (string, error) {
+	return p.inner.Encode(s.(plainSession).claims)
+}
+
+func (p plainCodec) Decode(tok string) (samlsp.Session, error) {
+	s, err := p.inner.Decode(tok)
+	if err != nil {
+		return nil, err
+	}
+	return plainSession{claims: s.(samlsp.JWTSessionClaims)}, nil
 }
 
 // ---------------------------------------------------------------- token surgery (stdlib only)
@@ -799,6 +925,7 @@ func otherRoot(kind, root string) string {
 // ---------------------------------------------------------------- check
 
 type observed struct {
+	plain   bool              // the session is the application's own type (no attributes exposed)
 	first   map[string]string // AttributeFromContext(ctx, name) for every name of the reference
 	ran     bool
 	subject string
@@ -840,7 +967,7 @@ func check(c Case) (res pbt.Result) {
 	fix.SetNow(t0)
 	jwt.MarshalSingleStringAsArray = c.ArrayAud
 	d := deploy(c.URL, key, c.CookieName, maxAge, c.Conf)
-	assertion := buildAssertion(c.Assertion)
+	assertion := buildAssertionAt(c.Assertion, t0, maxAge)
 	var tok string
 	var err error
 	if c.Base == "session" {
@@ -1159,6 +1286,11 @@ func check(c Case) (res pbt.Result) {
 	if m := c.Conf.CookieMaxAgeMs; m > 0 && m < admitUntil {
 		admitUntil = m
 	}
+	// ... and an IdP-stated earlier end (SessionNotOnOrAfter, Conditions) may be honoured: not judged after it;
+	// a LATER one never extends the configured lifetime
+	if m := capOffset(c.Assertion, c.MaxAgeMs); m > 0 && m < admitUntil {
+		admitUntil = m
+	}
 	clockVerdict := func(v0 verdict, off int64, timeOpen bool) verdict {
 		inside := off > 1_000 && off < admitUntil-1_000
 		outside := off < -1_000 || off > c.MaxAgeMs+1_000
@@ -1220,6 +1352,12 @@ func check(c Case) (res pbt.Result) {
 	fix.SetNow(present)
 	presentWarm := func(when string) string {
 		o := dr.present(d.name, warmTok, warmSpec)
+		if c.Conf.CustomCodec && c.Gate == "attr" {
+			if o.ran {
+				return fmt.Sprintf("RequireAttribute let a session without attributes through (%s the judged request)", when)
+			}
+			return ""
+		}
 		if o.panicV != nil {
 			return fmt.Sprintf("middleware panicked on another user's valid token (%s): %v", when, o.panicV)
 		}
@@ -1229,7 +1367,7 @@ func check(c Case) (res pbt.Result) {
 		if o.subject != "warm-user" {
 			return fmt.Sprintf("%s the judged request another user's valid token showed subject %q instead of its own", when, o.subject)
 		}
-		if df := diffAttrs(refAttributes(warmSpec), o.attrs); df != "" {
+		if df := diffAttrs(refAttributes(warmSpec), o.attrs); df != "" && !c.Conf.CustomCodec {
 			return fmt.Sprintf("%s the judged request another user's valid token showed foreign attributes: %s", when, df)
 		}
 		return ""
@@ -1290,6 +1428,20 @@ func check(c Case) (res pbt.Result) {
 	if len(c.Conf.Warm) > 0 || c.Conf.After {
 		res.Classes = append(res.Classes, "sequence:warm-or-after")
 	}
+	if c.Conf.CustomCodec {
+		res.Classes = append(res.Classes, "conf:custom-session-codec")
+	}
+	if a := c.Assertion; len(a.SNOA) > 0 || len(a.ConfNameIDs) > 0 || a.Qualifiers || a.Conditions != "" {
+		res.Classes = append(res.Classes, "assertion:idp-optional-parts")
+		for _, x := range a.SNOA {
+			if x != "" {
+				res.Classes = append(res.Classes, "assertion:SessionNotOnOrAfter-"+x)
+			}
+		}
+		if len(a.ConfNameIDs) > 0 && a.Subject == "nonameid" {
+			res.Classes = append(res.Classes, "assertion:confirmation-nameid-without-subject-nameid")
+		}
+	}
 	for _, so := range seq {
 		res.Classes = append(res.Classes, "sequence:earlier-"+so.p.What+":"+so.v.String())
 		if so.v == mustAdmit && v == mustRefuse && so.p.What == "original" && c.Mut == "none" {
@@ -1348,6 +1500,10 @@ func check(c Case) (res pbt.Result) {
 				gateOpen = true
 			}
 		}
+		if c.Conf.CustomCodec {
+			gateOpen = false // a session that exposes no attributes cannot carry the required value
+			res.Classes = append(res.Classes, "gate:custom-session-without-attributes")
+		}
 		if gateOpen {
 			res.Classes = append(res.Classes, "gate:open")
 		} else {
@@ -1356,7 +1512,8 @@ func check(c Case) (res pbt.Result) {
 	}
 	judgeOne := func(v verdict, ob observed, open bool, what string, off int64) string {
 		desc := fmt.Sprintf("base=%s mutation=%s(%q) presented=%s at offset %d ms (lifetime %d ms)", c.Base, c.Mut, c.MutArg, what, off, c.MaxAgeMs)
-		if ob.panicV != nil {
+		if ob.panicV != nil && !(c.Conf.CustomCodec && c.Gate == "attr") {
+			// (RequireAttribute documents that it panics on a session type without attributes: that is a refusal)
 			return fmt.Sprintf("middleware panicked: %s: %v", desc, ob.panicV)
 		}
 		switch v {
@@ -1387,6 +1544,15 @@ func check(c Case) (res pbt.Result) {
 			}
 		}
 		// admitted with a token of this assertion: what the application sees must be the assertion's
+		if c.Conf.CustomCodec {
+			if !ob.plain {
+				return "SessionFromContext did not return the custom codec's session value"
+			}
+			if ob.subject != refSubject(c.Assertion) {
+				return fmt.Sprintf("application saw subject %q, assertion says %q (%s)", ob.subject, refSubject(c.Assertion), desc)
+			}
+			return ""
+		}
 		if !ob.typeOK {
 			return "SessionFromContext did not return a session with attributes"
 		}
@@ -1490,6 +1656,9 @@ func newDriver(d deployment, c Case) *driver {
 		s := samlsp.SessionFromContext(r.Context())
 		if jc, ok := s.(samlsp.JWTSessionClaims); ok {
 			ob.subject = jc.Subject
+		}
+		if ps, ok := s.(plainSession); ok {
+			ob.subject, ob.plain = ps.claims.Subject, true
 		}
 		if sa, ok := s.(samlsp.SessionWithAttributes); ok {
 			ob.typeOK = true
@@ -1639,6 +1808,49 @@ func enumMutants(_ string, emit func(Case)) {
 				c.Base, c.Mut, c.Clock = "session", "none", "inside-mid"
 				emit(c)
 			}
+			// ---- assertions with the optional parts real IdPs send
+			for _, sub := range []string{"nameid", "nonameid"} {
+				for _, snoa := range [][]string{{"later"}, {"earlier"}, {"past"}, {"", "later"}, {"later", "earlier"}} {
+					for _, cond := range []string{"", "long", "short"} {
+						as2 := as
+						as2.Subject, as2.Qualifiers, as2.Conditions = sub, true, cond
+						if sub == "nonameid" {
+							as2.NameID = ""
+						}
+						as2.ConfNameIDs = []string{"https://idp.example.org/metadata", "mallory"}
+						as2.SessionIndexes = []string{"idx-1", "idx-2"}[:len(snoa)]
+						as2.SNOA = snoa
+						as2.AuthnAgoS = []int64{5, 86400}[:len(snoa)]
+						for _, maxAge := range []int64{3_600_000, 5_000} {
+							for _, cls := range []string{"inside-early", "inside-mid", "inside-late", "after-2s", "after-far", "before-2s"} {
+								c := base
+								c.Assertion = as2
+								c.Base, c.Mut, c.MaxAgeMs, c.Clock, c.OffMs = "session", "none", maxAge, cls, off(cls, maxAge)
+								emit(c)
+							}
+						}
+					}
+				}
+			}
+			// ---- an application's own session type without attributes behind the attribute gate
+			for _, cls := range []string{"inside-mid", "after-2s"} {
+				for _, gate := range []string{"", "admin", "nobody"} {
+					c := base
+					c.Conf.CustomCodec = true
+					c.Base, c.Mut, c.Clock, c.OffMs = "session", "none", cls, off(cls, base.MaxAgeMs)
+					if gate != "" {
+						c.Gate, c.GateName, c.GateValue = "attr", "groups", gate
+					}
+					emit(c)
+					c.Conf.Warm, c.Conf.After = []string{"other-legit"}, true
+					emit(c)
+					c.Conf.Warm, c.Conf.After = nil, false
+					c.Mut, c.MutArg = "claim-marker", "absent"
+					emit(c)
+					c.Base, c.Mut, c.MutArg = "tracking", "none", ""
+					emit(c)
+				}
+			}
 			// ---- the SAME token string at several clock positions on one long-lived middleware
 			for _, maxAge := range []int64{3_600_000, 5_000} {
 				o := func(cls string) int64 { return off(cls, maxAge) }
@@ -1748,6 +1960,8 @@ var prop = &pbt.Prop[Case]{
 		"'this SP's session codec' is the CONFIGURED one: tokens under the library-default algorithm, or carrying the root URL / entity ID / ACS URL / the deployment's issuer where its configured audience belongs, are foreign; with audience and issuer both configured explicitly a second deployment at another URL is indistinguishable and not generated",
 		"a token is expired after the codec's MaxAge; if the cookie provider's MaxAge is shorter, instants between the two are not judged",
 		"every case may serve warm-up requests (another user's valid token, garbage, a tracking token, no cookie) on the same Middleware and handler value before the judged request and another user's token after it; those must see their own identity and must not change the judged verdict",
+		"assertions may carry the optional parts real IdPs send (SessionNotOnOrAfter, AuthnInstant, several AuthnStatements, SubjectConfirmation NameIDs, NameID qualifiers, Issuer qualifiers, Conditions): the subject is the Subject's own NameID value or empty, a stated LATER end never extends the configured lifetime, after a stated EARLIER end nothing is judged on the admit side",
+		"with an application-defined SessionCodec whose session type has no attributes, RequireAttribute must not let a request through (its documented panic counts as a refusal); without the gate only the subject is compared",
 		"a case may present the same token string (or the unmodified original) several times to one Middleware / codec / handler at different clock positions, also going back in time; every presentation is judged on its own by the same rules",
 		"a re-signed token whose nbf/iat/exp all differ is refused while now < nbf or now > exp; strictly inside it is not judged (only the key holder can make it)",
 	},
